@@ -902,6 +902,33 @@ func c18CheckOrders(c *vfCase, s *c18Snap) (accepted bool) {
 		}
 	}
 
+	// the same in-memory snapshot loaded twice (no copy in between): a loader that rewrites what it is
+	// given (sorting a list of the resources in place, say) makes the second value differ from the first
+	{
+		shared := c18Ordered(s.Res, nil, nil)
+		pristine := c18CopyRes(shared)
+		a := c18Load(shared, s.Mode)
+		b := c18Load(shared, s.Mode)
+		c.Eval()
+		c.Count("same-object-loaded-twice")
+		switch {
+		case (a.err == nil) != (b.err == nil):
+			report("acceptance-differs:same-snapshot-object-loaded-twice", fmt.Sprintf("one snapshot object was once %s and once %s", c18ErrText(a.err), c18ErrText(b.err)), nil)
+		case a.err == nil && !reflect.DeepEqual(a.cfg, b.cfg):
+			ds := c18Diff(a.cfg, b.cfg)
+			where := "(unlocated)"
+			if len(ds) > 0 {
+				where = ds[0].Path + ": " + ds[0].What
+			}
+			report("value-differs:same-snapshot-object-loaded-twice", "two loads of one in-memory snapshot differ at "+where, map[string]any{"differences": ds})
+		}
+		if !reflect.DeepEqual(shared, pristine) {
+			// not a verdict: the statement is about the computed value; today's loader does sort selector
+			// values of the resources in place and still computes equal values
+			c.Count("loads-that-rewrote-their-input")
+		}
+	}
+
 	// the parser itself (config.For, as the admission webhook's validator calls it, without the sorting
 	// toConfig does first): its verdict on the snapshot as generated
 	_, rawErr := config.For(c18CopyRes(c18Ordered(s.Res, nil, nil)), c18Validator(s.Mode))
